@@ -18,7 +18,7 @@ CHECKS = {
         deep=True,      # ./check adds --deep for the thorough tier: bounds beyond the promoted ones (see bounds["thorough"])
         level="model_checking",
         runs=[dict(name="drbg", target="h_drbg", args=[], quick=[], thorough=[])],
-        deadline=dict(quick=150, thorough=900),   # deep: 175..250 s measured at load average 25..45 (about 1250 CPU-seconds, nearly all in the generator search: 16 MiB requests, level-synchronous)
+        deadline=dict(quick=300, thorough=1350),   # deep: 175..250 s measured at load average 25..45 (about 1250 CPU-seconds, nearly all in the generator search: 16 MiB requests, level-synchronous)
         bounds=dict(
             quick="generator: crypto_entropy_read(len) for len in {0,1,31,32,33,65535,65536,65537,131073} x {entropy ok, entropy source fails "
                   "at its next call} from every reachable (instantiated, reseed_counter 1..257) state, search to the fixed point (request "
